@@ -2,6 +2,7 @@ package rules
 
 import (
 	"fmt"
+	"go/constant"
 	"go/token"
 	"go/types"
 	"sort"
@@ -467,6 +468,76 @@ func runTrapInvariant(p *core.Prog) *core.Result {
 	})
 	if n == 0 {
 		res.Bad("(*proxyObject).proxyOwnKeys:configurability test", p.Pos(ok2.Pos()), "no *valueProperty test left in proxyOwnKeys: omitted non-configurable keys are not detected")
+	}
+	return res
+}
+
+// R-TRAPTHROW: a proxy operation has two kinds of failure. A trap that answers "false" fails the
+// way the ordinary operation would (TypeError only in strict/throwing contexts:
+// typeErrorResult(throw, ...)). A trap whose answer contradicts an invariant of the target is
+// rejected unconditionally (panic with a TypeError), also for Reflect.* callers that pass throw=false.
+// So a conditional throw in a proxyObject method is admissible only under a falsish trap result.
+var TrapThrow = &core.Rule{Name: "R-TRAPTHROW", Run: runTrapThrow,
+	Doc: "in every method of *proxyObject each typeErrorResult(throw, ...) call whose first argument is not the constant true is control-dependent on a falsish trap result (the bool returned by the handler, or a bool parameter carrying it)"}
+
+func runTrapThrow(p *core.Prog) *core.Result {
+	res := core.NewResult("R-TRAPTHROW", 4)
+	pt, err := p.GojaType("proxyObject")
+	if err != nil {
+		return res.Fail(err)
+	}
+	ter, err := p.GojaMethod("Runtime", "typeErrorResult")
+	if err != nil {
+		return res.Fail(err)
+	}
+	isTrapResult := func(fn *ssa.Function, v ssa.Value) bool {
+		v = core.Origin(v)
+		if prm, ok := v.(*ssa.Parameter); ok {
+			if b, ok := prm.Type().Underlying().(*types.Basic); ok && b.Kind() == types.Bool && prm.Name() != "throw" {
+				return true
+			}
+		}
+		if ex, ok := v.(*ssa.Extract); ok && ex.Index == 0 {
+			if c, ok := ex.Tuple.(*ssa.Call); ok && c.Call.IsInvoke() {
+				// invoked on the handler returned by checkHandler()
+				if hc, ok := core.Origin(c.Call.Value).(*ssa.Call); ok {
+					if sc := hc.Call.StaticCallee(); sc != nil && sc.Name() == "checkHandler" {
+						return true
+					}
+				}
+			}
+		}
+		return false
+	}
+	n := 0
+	for _, fn := range p.Funcs {
+		if fn.Parent() != nil || fn.Signature.Recv() == nil || core.NamedOf(fn.Signature.Recv().Type()) != pt {
+			continue
+		}
+		k := 0
+		for _, c := range core.CallsIn(fn, ter) {
+			args := c.Common().Args
+			if len(args) < 2 {
+				continue
+			}
+			if kc, ok := args[1].(*ssa.Const); ok && kc.Value != nil && kc.Value.Kind() == constant.Bool && constant.BoolVal(kc.Value) {
+				continue // unconditional
+			}
+			n++
+			k++
+			key := fmt.Sprintf("%s:conditional throw#%d", core.FuncName(fn), k)
+			ok := false
+			for _, cp := range core.ControllingConds(c.Block()) {
+				if !cp.Pol && isTrapResult(fn, cp.Cond) {
+					ok = true
+				}
+			}
+			if ok {
+				res.OK(key, p.Pos(c.Pos()), "under a falsish trap result")
+			} else {
+				res.Bad(key, p.Pos(c.Pos()), "a failure that is not 'the trap answered false' is reported with typeErrorResult(throw, ...): with throw == false (Reflect.setPrototypeOf, Reflect.defineProperty, Reflect.set ...) a trap result that violates an invariant of the target is answered with `false` instead of being rejected with a TypeError")
+			}
+		}
 	}
 	return res
 }
